@@ -40,7 +40,9 @@ struct NipalsTol {
   int kmax = 0;                    // components [0,kmax) are decidable
 };
 
-inline NipalsTol nipals_tolerances(const LVec &ev, int npc, int n, double crit, double safety = 10.0, int ncols = 0) {
+// data_noise: relative accuracy of the entries of E beyond plain rounding (centring a column at location m with spread sd leaves
+// eps*|m|/sd), enters like the rounding term
+inline NipalsTol nipals_tolerances(const LVec &ev, int npc, int n, double crit, double safety = 10.0, int ncols = 0, double data_noise = 0.0) {
   NipalsTol T; T.sin_angle.assign(npc, 1.0); T.eval_rel.assign(npc, 1.0); T.score_rel.assign(npc, 1.0);
   long double c = 0;  // accumulated deflation perturbation of the cross-product matrix
   double tilt = 0;    // sum of the angle errors of the earlier components (each later loading is orthogonal to them)
@@ -53,7 +55,7 @@ inline NipalsTol nipals_tolerances(const LVec &ev, int npc, int n, double crit, 
     double dconv = sqrt((double)n * crit) * sqrt(r) / (1 - r);
     double ddefl = tilt + (double)(c / (ev[k] * (1 - r)));
     double cells = (double)n * (double)(ncols > 0 ? ncols : (int)ev.size());
-    double dround = 16 * 2.220446049250313e-16 * sqrt(cells) * sqrt((double)(ev[0] / ev[k])) / (1 - r);   // the library's double arithmetic
+    double dround = 16 * (2.220446049250313e-16 + data_noise) * sqrt(cells) * sqrt((double)(ev[0] / ev[k])) / (1 - r);   // the library's double arithmetic
     double doracle = 64 * 1.0842021724855044e-19 * (double)(ev[0] / ev[k]) / (1 - r);                       // the oracle's long-double Jacobi on E'E
     double d = dconv + ddefl + dround + doracle;
     T.sin_angle[k] = safety * d + 1e-7;
